@@ -40,7 +40,8 @@ def budget(tier):
 def profile(ci):
     return gm.make_profile(p_cfg=0.8, p_cfg_union_attr=0.15 if ci % 4 == 0 else 0.0, n_ns=(1, 4),
                            p_doc=0.5, p_hostile_doc=0.05, p_foreign=0.5, p_examples=0.1, n_routes=(1, 5),
-                           p_route_container_result=0.3 if ci % 2 else 0.0)
+                           p_route_container_result=0.35,
+                           p_sparse_namespace=0.2)
 
 
 def camel(s):
